@@ -31,13 +31,13 @@ I0 == [present |-> FALSE, cfg |-> NoCfg,
        vc |-> NoCall, st |-> NoStop,
        burst |-> 0, burstT |-> -1,
        preSince |-> -1,
-       inflight |-> {}, lastEv |-> "", note |-> "", why |-> "", readyAt |-> -1]
+       inflight |-> {}, lastEv |-> "", note |-> "", why |-> "", readyAt |-> -1, owes |-> FALSE, cut |-> FALSE]
 
 O0 == [scn |-> "", ended |-> TRUE, H |-> 1000000, TTL |-> 3000000, L |-> 0, PT |-> 5000000,
        rec |-> [k \in Keys |-> NoRec], tokens |-> {}, pend |-> {},
        I |-> [i \in Ids |-> I0],
        faulty |-> FALSE, slow |-> FALSE, outside |-> FALSE, tk |-> FALSE, hc |-> FALSE, conn |-> FALSE,
-       connEv |-> FALSE, stopSeen |-> FALSE, badval |-> FALSE,
+       connEv |-> FALSE, stopSeen |-> FALSE, badval |-> FALSE, unhealthy |-> FALSE,
        vacSince |-> [k \in Keys |-> -1], recSince |-> [k \in Keys |-> 0], W |-> 0,
        now |-> 0]
 
@@ -49,6 +49,8 @@ Own(o, i) == LET r == o.rec[o.I[i].cfg.group] IN o.I[i].claim /\ ClaimBacked(i, 
 
 \* the assumptions of C02 hold so far: responsive store, no injected fault, no outside writer,
 \* no preemption configured
+\* context suffix of C02 clauses: unhealthy ticks skip the refresh (known finding, see DESIGN.md)
+Ctx(o) == IF o.unhealthy THEN ":after_unhealthy_ticks_skipped_refresh" ELSE ""
 Calm(o)  == ~o.faulty /\ ~o.slow /\ ~o.outside /\ ~o.tk
 \* additionally those of C07
 Quiet(o) == Calm(o) /\ ~o.hc /\ ~o.connEv
@@ -64,14 +66,14 @@ TickInst(o, i, e) ==
   LET x == o.I[i]
       t == e.t
       h == x.cfg.h
-      dep == x.lostAt >= 0 /\ t > DeposedDeadline(x.lostAt, h)
+      dep == x.lostAt >= 0 /\ ~x.cut /\ t > DeposedDeadline(x.lostAt, h)
       cut == x.claim /\ x.failRun >= 1 /\ x.okStart >= 0 /\ ~x.hskip /\ t > CutOffDeadline(x.okStart, h)
       pre == x.preSince >= 0 /\ t > PreemptDeadline(x.preSince, o.H)
       gr  == x.graceDue >= 0 /\ t > x.graceDue
       sl  == x.st.open /\ ~x.st.late /\ t > x.st.at + x.st.bound + 4 * o.L + 1000
       T == OpTimeout(h)
       tmo == {q \in o.pend : q.i = i /\ q.kind = "update" /\ ~q.to /\ q.tok = x.ttok /\ x.claim /\ t - q.at >= T}
-      v == (IF dep THEN {V("C03", "deposed_not_demoted_in_time:" \o x.lostCause, i, e)} \cup
+      v == (IF dep THEN {V("C03", "deposed_not_demoted_in_time:" \o x.lostCause \o Ctx(o), i, e)} \cup
                         (IF x.lostOutside THEN {V("C13", "tampered_leader_not_demoted", i, e)} ELSE {}) ELSE {})
            \cup (IF cut THEN {V("C03", "cut_off_not_demoted_in_time", i, e)} ELSE {})
            \cup (IF pre THEN {V("C10", "higher_priority_not_leader_within_3H", i, e)} ELSE {})
@@ -128,7 +130,7 @@ RecChanged(o, k, n, w, cause, e) ==
       o3 == [o2 EXCEPT !.vacSince[k] = IF n.live THEN -1
                                        ELSE IF becameVacant /\ anyCand THEN e.t ELSE @,
                        !.recSince[k] = IF n.live # p.live \/ n.id # p.id THEN e.t ELSE @]
-      v == IF Calm(o) THEN {V("C02", "record_lost_while_claiming:" \o cause, i, e) : i \in {j \in Ids : lose(j)}} ELSE {}
+      v == IF Calm(o) THEN {V("C02", "record_lost_while_claiming:" \o cause \o Ctx(o), i, e) : i \in {j \in Ids : lose(j)}} ELSE {}
       v7 == IF Quiet(o) THEN {V("C07", "record_of_leader_lapsed_or_changed_owner:" \o cause, i, e) : i \in {j \in Ids : lose(j)}} ELSE {}
   IN R(o3, v \cup v7)
 
@@ -165,7 +167,7 @@ H_stop_call(o, e) ==
       st == [open |-> TRUE, variant |-> e.variant, del |-> e.del, wait |-> e.wait,
              bound |-> StopBound(e.variant, tmo, x.cfg.ddur, e.wait), at |-> e.t,
              owner |-> x.claim /\ ClaimBacked(e.i, r, x.ttok) /\ r.writer = e.i, late |-> FALSE]
-  IN R([SetI(o, e.i, [x EXCEPT !.stopping = @ + 1, !.st = st]) EXCEPT !.stopSeen = TRUE], {})
+  IN R([SetI(o, e.i, [x EXCEPT !.stopping = @ + 1, !.st = st, !.owes = @ \/ (x.claim /\ x.cfg.cb)]) EXCEPT !.stopSeen = TRUE], {})
 
 H_stop_ret(o, e) ==
   LET x == o.I[e.i]
@@ -220,7 +222,7 @@ H_op_apply(o, e) ==
   IF e.ok /\ e.kind \in {"create", "update", "delete"} THEN H_mutation(o, e)
   ELSE R(o, {})
 
-H_op_fault(o, e) == R(Rearm([o EXCEPT !.faulty = TRUE], e.t + o.PT), {})
+H_op_fault(o, e) == R(Rearm([o EXCEPT !.faulty = TRUE, !.I[e.i].cut = TRUE], e.t + o.PT), {})
 
 H_op_resp(o, e) ==
   LET x == o.I[e.i]
@@ -246,7 +248,7 @@ H_op_resp(o, e) ==
       y4 == [y3 EXCEPT !.inflight = @ \ {e.op}]
       lostResp == e.lost \/ (~e.ok /\ e.err \in {"timeout", "connclosed", "noresponders"})
       o1 == SetI(o0, e.i, y4)
-      o2 == IF lostResp THEN Rearm([o1 EXCEPT !.faulty = TRUE], e.t) ELSE o1
+      o2 == IF lostResp THEN Rearm([o1 EXCEPT !.faulty = TRUE, !.I[e.i].cut = TRUE], e.t) ELSE o1
   IN R(o2, {})
 
 H_w_deliver(o, e) == R(o, {})
@@ -273,7 +275,7 @@ ClaimEdge(o, i, b, e) ==
       y == IF rising
            THEN [x EXCEPT !.claim = TRUE, !.ttok = x.acqTok, !.trev = x.acqRev, !.acqFresh = FALSE, !.revOK = TRUE,
                           !.consecU = 0, !.hdue = FALSE, !.failRun = 0, !.okStart = e.t, !.hskip = FALSE,
-                          !.lostAt = -1, !.termLive = TRUE, !.ndRise = x.nd, !.preSince = -1, !.note = ""]
+                          !.lostAt = -1, !.termLive = TRUE, !.ndRise = x.nd, !.preSince = -1, !.note = "", !.cut = x.part]
            ELSE IF falling
            THEN [x EXCEPT !.claim = FALSE, !.termLive = FALSE, !.graceDue = -1, !.hdue = FALSE, !.why = x.note, !.note = "",
                           !.lostAt = IF x.cfg.cb /\ ~inStop THEN @ ELSE -1]
@@ -282,8 +284,8 @@ ClaimEdge(o, i, b, e) ==
       vr == IF rising
             THEN (IF ~x.acqFresh THEN {V("C13", "claim_without_own_successful_acquisition", i, e)} ELSE {})
                  \cup (IF x.stopped THEN {V("C09", "leadership_claimed_after_stop_returned", i, e)} ELSE {})
-                 \cup (IF Calm(o) /\ ~AtMostOneLeader(Claims(o1, k)) THEN {V("C02", "two_leaders", i, e)} ELSE {})
-                 \cup (IF Calm(o) /\ ~ClaimBacked(i, r, y.ttok) THEN {V("C02", "claim_not_backed_by_record", i, e)} ELSE {})
+                 \cup (IF Calm(o) /\ ~AtMostOneLeader(Claims(o1, k)) THEN {V("C02", "two_leaders" \o Ctx(o), i, e)} ELSE {})
+                 \cup (IF Calm(o) /\ ~ClaimBacked(i, r, y.ttok) THEN {V("C02", "claim_not_backed_by_record" \o Ctx(o), i, e)} ELSE {})
             ELSE {}
       vf == IF falling /\ ~inStop /\ Quiet(o)
             THEN {V("C07", "leader_demoted_in_fault_free_operation:" \o x.note, i, e)} ELSE {}
@@ -323,8 +325,8 @@ H_ctx_done(o, e) ==
 H_demote(o, e) ==
   LET x == o.I[e.i]
       v1 == IF ~DemoteAllowed(x.np, x.nd) THEN {V("C08", "demotion_without_matching_promotion", e.i, e)} ELSE {}
-      v2 == IF Quiet(o) /\ x.stopping = 0 THEN {V("C07", "demotion_callback_in_fault_free_operation", e.i, e)} ELSE {}
-      y == [x EXCEPT !.nd = @ + 1, !.lostAt = IF ~x.claim THEN -1 ELSE @]
+      v2 == IF Quiet(o) /\ x.stopping = 0 /\ ~x.owes THEN {V("C07", "demotion_callback_in_fault_free_operation", e.i, e)} ELSE {}
+      y == [x EXCEPT !.nd = @ + 1, !.lostAt = IF ~x.claim THEN -1 ELSE @, !.owes = FALSE]
   IN R(SetI(o, e.i, y), v1 \cup v2)
 
 H_health(o, e) ==
@@ -333,7 +335,7 @@ H_health(o, e) ==
       cu == IF e.res THEN 0 ELSE x.consecU + 1
       v1 == IF ~HealthDeadlineOK(e.dl) THEN {V("C12", "health_check_context_deadline", e.i, e)} ELSE {}
       y == [x EXCEPT !.consecU = cu, !.hdue = ~e.res /\ cu >= N, !.hskip = @ \/ ~e.res]
-  IN R(SetI(o, e.i, y), v1)
+  IN R([SetI(o, e.i, y) EXCEPT !.unhealthy = @ \/ ~e.res], v1)
 
 H_note(o, e) ==
   LET x == o.I[e.i]
@@ -353,7 +355,7 @@ H_reconn(o, e) ==
 H_closed(o, e) == R([o EXCEPT !.connEv = TRUE], {})
 
 H_partition(o, e) ==
-  R([SetI(o, e.i, [o.I[e.i] EXCEPT !.part = TRUE]) EXCEPT !.faulty = TRUE], {})
+  R([SetI(o, e.i, [o.I[e.i] EXCEPT !.part = TRUE, !.cut = TRUE]) EXCEPT !.faulty = TRUE], {})
 H_heal(o, e) ==
   R(Rearm(SetI(o, e.i, [o.I[e.i] EXCEPT !.part = FALSE]), e.t + o.PT), {})
 
@@ -391,8 +393,8 @@ H_snap(o, e) ==
       bound == 1000000 + 6 * o1.L + o1.W
       settled == r.live /\ r.cls = "payload" /\ e.t - o1.recSince[k] > bound /\ e.t - y.readyAt > bound
       v18d == IF follower /\ settled /\ e.slid # r.id THEN {V("C18", "follower_leader_id_not_converged", i, e)} ELSE {}
-      v02 == IF Calm(o1) /\ y.claim /\ ~ClaimBacked(i, r, y.ttok) THEN {V("C02", "claim_not_backed_by_record", i, e)} ELSE {}
-      v02b == IF Calm(o1) /\ ~AtMostOneLeader(Claims(o1, k)) THEN {V("C02", "two_leaders", i, e)} ELSE {}
+      v02 == IF Calm(o1) /\ y.claim /\ ~ClaimBacked(i, r, y.ttok) THEN {V("C02", "claim_not_backed_by_record" \o Ctx(o), i, e)} ELSE {}
+      v02b == IF Calm(o1) /\ ~AtMostOneLeader(Claims(o1, k)) THEN {V("C02", "two_leaders" \o Ctx(o), i, e)} ELSE {}
       v07 == IF Quiet(o1) /\ y.claim /\ e.tok # y.ttok THEN {V("C07", "term_token_changed", i, e)} ELSE {}
       v05 == IF y.claim /\ quiet /\ (e.tok # y.ttok \/ e.stok # y.ttok) THEN {V("C05", "token_accessors_differ_from_record_token", i, e)} ELSE {}
       v08 == IF quiet /\ y.cfg.cb /\ ~Balanced(y.claim, e.np, e.nd)
@@ -401,8 +403,8 @@ H_snap(o, e) ==
              THEN {V("C12", "not_demoted_at_configured_failure_count", i, e)} ELSE {}
       v19 == IF quiet /\ ~y.claim /\ y.ctxOpen # {} THEN {V("C19", "promotion_context_outlives_term", i, e)} ELSE {}
       \* first refresh attempt after the loss completed: must be demoted now (C03)
-      v03 == IF quiet /\ y.lostAt >= 0 /\ y.lostHb > 0 /\ y.lostHb \notin {q.op : q \in o1.pend} /\ (y.claim \/ (y.cfg.cb /\ e.nd <= y.ndRise))
-             THEN {V("C03", "not_demoted_at_completion_of_next_heartbeat:" \o y.lostCause, i, e)} ELSE {}
+      v03 == IF quiet /\ ~y.cut /\ y.lostAt >= 0 /\ y.lostHb > 0 /\ y.lostHb \notin {q.op : q \in o1.pend} /\ (y.claim \/ (y.cfg.cb /\ e.nd <= y.ndRise))
+             THEN {V("C03", "not_demoted_at_completion_of_next_heartbeat:" \o y.lostCause \o Ctx(o1), i, e)} ELSE {}
       v03b == IF quiet /\ y.claim /\ y.failRun >= ToleratedFailures
               THEN {V("C03", "not_demoted_after_third_failed_refresh", i, e)} ELSE {}
       vver == IF quiet /\ y.verify = "done" /\ ~y.verifyOwn /\ y.claim
